@@ -3,7 +3,9 @@ package exec
 import (
 	"context"
 	"encoding/json"
+	"errors"
 	"fmt"
+	"strconv"
 	"strings"
 
 	"github.com/theory/sqljson/path/ast"
@@ -135,7 +137,7 @@ func compareNumeric(left, right any) int {
 			if rightInt, err := right.Int64(); err == nil {
 				return compareNumbers(left, rightInt)
 			}
-			rightFloat, err := right.Float64()
+			rightFloat, err := jsonFloat64(right)
 			if err == nil {
 				return compareNumbers(float64(left), rightFloat)
 			}
@@ -149,7 +151,7 @@ func compareNumeric(left, right any) int {
 		case int64:
 			return compareNumbers(left, float64(right))
 		case json.Number:
-			rightFloat, err := right.Float64()
+			rightFloat, err := jsonFloat64(right)
 			if err == nil {
 				return compareNumbers(left, rightFloat)
 			}
@@ -160,7 +162,7 @@ func compareNumeric(left, right any) int {
 		if left, err := left.Int64(); err == nil {
 			return compareNumeric(left, right)
 		}
-		leftFloat, err := left.Float64()
+		leftFloat, err := jsonFloat64(left)
 		if err == nil {
 			return compareNumeric(leftFloat, right)
 		}
@@ -170,4 +172,15 @@ func compareNumeric(left, right any) int {
 
 	// This should not happen
 	panic(fmt.Sprintf("Value not numeric: %q", left))
+}
+
+// jsonFloat64 converts num to float64. A well-formed number too large for
+// float64 is not an error: it converts to +Inf or -Inf, which orders it
+// correctly against every finite number.
+func jsonFloat64(num json.Number) (float64, error) {
+	f, err := num.Float64()
+	if err != nil && errors.Is(err, strconv.ErrRange) {
+		return f, nil
+	}
+	return f, err
 }
